@@ -20,7 +20,6 @@ theorem final_all_exited (net : Net) (wf : WF net) (s : State) (hi : Inv net s) 
 
 /-- a sentinel has been put on one of the inputs of the node the main thread is joining -/
 theorem sput_of_fed (net : Net) (s : State) (hi : Inv net s) (c : Nat) (pre : List Instr)
-    (hpre : net.script = pre ++ s.pc)
     (hj : ∀ n, Instr.join n ∈ pre → s.nodes n = .s []) (hp : ∀ c, Instr.put c ∈ pre → s.sput c = true)
     (hfed : Fed net c pre) : s.sput c = true := by
   obtain ⟨i, hip, h | ⟨m, md, h, hmd, hc⟩⟩ := hfed
@@ -57,7 +56,7 @@ theorem progress_of_inv (net : Net) (wf : WF net) (hub : Unbounded net) (s : Sta
         | cons c r => exact ⟨.put n, by simp [step, hlt, hs, room, hub c]⟩
         | nil =>
           obtain ⟨c, hc, hfed⟩ := wf.fed n nd hnd pre rest hscript
-          have hsp := sput_of_fed net s hi c pre hpre hj hp hfed
+          have hsp := sput_of_fed net s hi c pre hj hp hfed
           rcases hi.keep c hsp with h | ⟨m, md, pend, hmd, hcm, hm, hr⟩
           · cases hq : s.chans c with
             | nil => rw [hq] at h; simp at h
